@@ -148,9 +148,34 @@ func (t *Term) mentions(s string) bool {
 
 type Fact struct {
 	Pos  bool
-	Op   string // eq, lt, true
+	Op   string // eq, lt, true, imp
 	A, B *Term
 	key  string
+	// implication facts (Op == "imp"): Cond => Then, produced at joins where
+	// one side knows Cond and the other its negation
+	Cond, Then *Fact
+}
+
+func mkImp(c, t *Fact) *Fact {
+	return &Fact{Pos: true, Op: "imp", Cond: c, Then: t, key: "imp[" + c.key + " => " + t.key + "]"}
+}
+
+func negKey(f *Fact) string {
+	if f.Pos {
+		return "-" + f.key[1:]
+	}
+	return "+" + f.key[1:]
+}
+
+// simpleCond: a test of a plain variable (b, !b, v == const).
+func simpleCond(f *Fact) bool {
+	switch f.Op {
+	case "true":
+		return f.A.K == 'v'
+	case "eq":
+		return (f.A.K == 'v' && (f.B.K == 'c' || f.B.K == 'n')) || (f.B.K == 'v' && (f.A.K == 'c' || f.A.K == 'n'))
+	}
+	return false
 }
 
 func mkFact(pos bool, op string, a, b *Term) *Fact {
@@ -173,6 +198,9 @@ func mkFact(pos bool, op string, a, b *Term) *Fact {
 func (f *Fact) String() string { return pretty(f.key) }
 
 func (f *Fact) terms() []*Term {
+	if f.Op == "imp" {
+		return append(f.Cond.terms(), f.Then.terms()...)
+	}
 	if f.B != nil {
 		return []*Term{f.A, f.B}
 	}
@@ -269,6 +297,34 @@ func meet(a, b *State) *State {
 			n.m[k] = f
 		}
 	}
+	// path correlation: C on one side, not-C on the other
+	addImps := func(x, y *State) {
+		for _, c := range x.m {
+			if c.Op == "imp" || !simpleCond(c) {
+				continue
+			}
+			if _, ok := y.m[negKey(c)]; !ok {
+				continue
+			}
+			cnt := 0
+			for k, t := range x.m {
+				if t.Op == "imp" || t == c {
+					continue
+				}
+				if _, both := y.m[k]; both {
+					continue
+				}
+				if cnt > 24 {
+					break
+				}
+				cnt++
+				imp := mkImp(c, t)
+				n.m[imp.key] = imp
+			}
+		}
+	}
+	addImps(a, b)
+	addImps(b, a)
 	return n
 }
 
@@ -310,10 +366,32 @@ func (s *State) add(fs ...*Fact) *State {
 			}
 		}
 	}
-	return s.with(all...)
+	ns := s.with(all...)
+	// fire implications whose condition is now known
+	for round := 0; round < 3; round++ {
+		var fired []*Fact
+		for _, imp := range ns.m {
+			if imp.Op != "imp" {
+				continue
+			}
+			if _, ok := ns.m[imp.Cond.key]; ok {
+				if _, have := ns.m[imp.Then.key]; !have {
+					fired = append(fired, imp.Then)
+				}
+			}
+		}
+		if len(fired) == 0 {
+			break
+		}
+		ns = ns.with(fired...)
+	}
+	return ns
 }
 
 func rewriteThrough(f, eq *Fact) []*Fact {
+	if f.Op == "imp" || eq.Op == "imp" {
+		return nil
+	}
 	if f == eq || f.key == eq.key {
 		return nil
 	}
@@ -370,6 +448,9 @@ type FactEngine struct {
 	objIDs  map[types.Object]int
 	getters map[*types.Func]*types.Var
 	events  map[*types.Func]bool
+	// Accept, when set, lets a rule discharge a requirement from other
+	// facts of the state than the required one (e.g. an identity guard).
+	Accept func(st *State, f *Fact) bool
 }
 
 func NewFactEngine(p *Program) *FactEngine {
@@ -483,6 +564,22 @@ func (ff *FuncFacts) run(entry *State) {
 	visited := make([]bool, len(blocks))
 	in[0] = entry
 	visited[0] = true
+	// out-state per CFG edge; the in-state of a block is recomputed as the
+	// meet over all its incoming edges, so that path correlations
+	// (implications) found at a join are not lost when one predecessor is
+	// revisited
+	type edge struct {
+		from int32
+		pos  int
+	}
+	edgeOut := map[edge]*State{}
+	hasOut := map[edge]bool{}
+	preds := make([][]edge, len(blocks))
+	for _, b := range blocks {
+		for i, s := range b.Succs {
+			preds[s.Index] = append(preds[s.Index], edge{b.Index, i})
+		}
+	}
 	work := []int32{0}
 	iter := 0
 	for len(work) > 0 {
@@ -495,14 +592,30 @@ func (ff *FuncFacts) run(entry *State) {
 		b := blocks[bi]
 		outs := ff.transfer(b, in[bi], false)
 		for i, succ := range b.Succs {
-			o := outs[i]
+			e := edge{b.Index, i}
+			edgeOut[e] = outs[i]
+			hasOut[e] = true
+			var m *State
+			first := true
+			for _, pe := range preds[succ.Index] {
+				if !hasOut[pe] {
+					continue
+				}
+				if first {
+					m, first = edgeOut[pe], false
+				} else {
+					m = meet(m, edgeOut[pe])
+				}
+			}
+			if succ.Index == 0 {
+				m = meet(m, entry)
+			}
 			if !visited[succ.Index] {
 				visited[succ.Index] = true
-				in[succ.Index] = o
+				in[succ.Index] = m
 				work = append(work, succ.Index)
 				continue
 			}
-			m := meet(in[succ.Index], o)
 			if !sameState(m, in[succ.Index]) {
 				in[succ.Index] = m
 				work = append(work, succ.Index)
@@ -1023,7 +1136,18 @@ func (ff *FuncFacts) term(e ast.Expr) *Term {
 			return nil
 		}
 		return TDeref(b)
+	case *ast.CompositeLit:
+		switch info.TypeOf(x).Underlying().(type) {
+		case *types.Map, *types.Slice:
+			return freshTerm(x.Pos())
+		}
+		return nil
 	case *ast.UnaryExpr:
+		if x.Op == token.AND {
+			if cl, ok := unparen(x.X).(*ast.CompositeLit); ok {
+				return freshTerm(cl.Pos())
+			}
+		}
 		b := ff.term(x.X)
 		if b == nil {
 			return nil
@@ -1086,6 +1210,9 @@ func (ff *FuncFacts) term(e ast.Expr) *Term {
 			}
 		case *types.Builtin:
 			name = callee.Name()
+			if name == "make" || name == "new" {
+				return freshTerm(x.Pos())
+			}
 			if name != "len" && name != "cap" && name != "min" && name != "max" {
 				return nil
 			}
@@ -1103,6 +1230,14 @@ func (ff *FuncFacts) term(e ast.Expr) *Term {
 	}
 	return nil
 }
+
+// freshTerm denotes the object allocated by the expression at pos
+// (make, new, &T{}, map/slice literal): distinct from everything else and non-nil.
+func freshTerm(pos token.Pos) *Term {
+	return &Term{K: 'o', Name: "fresh", Args: []*Term{TConst(fmt.Sprint(int(pos)))}}
+}
+
+func isFresh(t *Term) bool { return t != nil && t.K == 'o' && t.Name == "fresh" }
 
 // ---------- assumptions from conditions ----------
 
@@ -1226,15 +1361,36 @@ func (ff *FuncFacts) killTerm(st *State, t *Term) *State {
 		fld := t.Obj
 		return st.filter(func(f *Fact) bool { return !f.ents().fields[fld] && !ff.callReads(f, fld) })
 	case 'i':
-		// store to an element: kill what mentions the container
+		// store to an element: kill what depends on the container's
+		// contents (index terms, calls taking it, len/each), but not facts
+		// about the container value itself (x == nil, x == y)
 		base := t.Args[0]
-		switch base.K {
-		case 'v':
-			return ff.killTerm(st, base)
-		case 'f':
-			return ff.killTerm(st, base)
+		if base.K != 'v' && base.K != 'f' {
+			return ff.killAllHeap(st)
 		}
-		return ff.killAllHeap(st)
+		same := func(x *Term) bool {
+			if base.K == 'v' {
+				return x.K == 'v' && x.Obj == base.Obj
+			}
+			return x.K == 'f' && x.Obj == base.Obj
+		}
+		return st.filter(func(f *Fact) bool {
+			dep := false
+			for _, top := range f.terms() {
+				top.walk(func(x *Term) {
+					if x.K == 'i' || x.K == 'k' || (x.K == 'o' && x.Name != "fresh") {
+						for _, a := range x.Args {
+							a.walk(func(y *Term) {
+								if same(y) {
+									dep = true
+								}
+							})
+						}
+					}
+				})
+			}
+			return !dep
+		})
 	case 'd':
 		return ff.killAllHeap(st)
 	}
@@ -1543,6 +1699,14 @@ func (ff *FuncFacts) assign(x *ast.AssignStmt, st *State) *State {
 		// about "the value returned here" survive reassignment of the variable
 		if (lt.K == 'v' || lt.K == 'f') && ff.pureTerm(rt) {
 			st = st.add(mkFact(true, "eq", lt, rt))
+			if isFresh(rt) {
+				st = st.add(mkFact(false, "eq", lt, TNil()))
+			}
+			if isOrdered(info.TypeOf(x.Lhs[i])) {
+				// x = y: neither x < y nor y < x (survives a join with the
+				// branch on which the comparison was already false)
+				st = st.with(mkFact(false, "lt", lt, rt), mkFact(false, "lt", rt, lt))
+			}
 		}
 		if len(x.Rhs) == len(x.Lhs) {
 			if call, ok := unparen(x.Rhs[i]).(*ast.CallExpr); ok {
@@ -1554,6 +1718,14 @@ func (ff *FuncFacts) assign(x *ast.AssignStmt, st *State) *State {
 		}
 	}
 	return st
+}
+
+func isOrdered(t types.Type) bool {
+	if t == nil {
+		return false
+	}
+	b, ok := t.Underlying().(*types.Basic)
+	return ok && b.Info()&(types.IsInteger|types.IsFloat) != 0
 }
 
 // pureTerm: every call inside the term is to a pure module function or a
@@ -1594,8 +1766,9 @@ func (p *Program) ssaOfSrc(src *FuncSrc) []*ssa.Function {
 // ---------- interprocedural requirements ----------
 
 type holdResult struct {
-	ok    bool
-	trail []string // where the requirement was discharged, or where it failed
+	ok       bool
+	trail    []string // where the requirement was discharged, or where it failed
+	failFact *Fact    // the (translated) fact at the point where the requirement failed
 }
 
 func (r holdResult) String() string { return strings.Join(r.trail, "; ") }
@@ -1677,20 +1850,23 @@ func (e *FactEngine) holds(fs *FuncSrc, at ast.Node, f *Fact, depth int, seen ma
 	where := fs.Name + " at " + e.p.PosStr(at.Pos())
 	if !ok {
 		// node not on any live path of the CFG
-		return holdResult{true, []string{where + ": unreachable"}}
+		return holdResult{ok: true, trail: []string{where + ": unreachable"}}
 	}
 	if st == nil || st.Has(f.key) {
-		return holdResult{true, []string{where + ": " + f.String()}}
+		return holdResult{ok: true, trail: []string{where + ": " + f.String()}}
+	}
+	if e.Accept != nil && e.Accept(st, f) {
+		return holdResult{ok: true, trail: []string{where + ": " + f.String() + " (accepted from an equivalent guard)"}}
 	}
 	fail := func(why string) holdResult {
-		return holdResult{false, []string{fmt.Sprintf("%s: %s not established (%s); facts here: %s", where, f.String(), why, st.String())}}
+		return holdResult{false, []string{fmt.Sprintf("%s: %s not established (%s); facts here: %s", where, f.String(), why, st.String())}, f}
 	}
 	if depth >= 6 {
 		return fail("call depth limit")
 	}
 	sk := fs.Name + "|" + f.key
 	if seen[sk] {
-		return holdResult{true, []string{where + ": (recursive)"}}
+		return holdResult{ok: true, trail: []string{where + ": (recursive)"}}
 	}
 	seen[sk] = true
 	defer delete(seen, sk)
@@ -1793,11 +1969,11 @@ func (e *FactEngine) holds(fs *FuncSrc, at ast.Node, f *Fact, depth int, seen ma
 		}
 		r := e.holds(c.cs.In, call, nf, depth+1, seen)
 		if !r.ok {
-			return holdResult{false, append([]string{where + ": needs " + f.String() + " from its callers"}, r.trail...)}
+			return holdResult{false, append([]string{where + ": needs " + f.String() + " from its callers"}, r.trail...), r.failFact}
 		}
 		trail = append(trail, r.trail...)
 	}
-	return holdResult{true, append([]string{where + ": required of all " + fmt.Sprint(len(callers)) + " call site(s)"}, trail...)}
+	return holdResult{ok: true, trail: append([]string{where + ": required of all " + fmt.Sprint(len(callers)) + " call site(s)"}, trail...)}
 }
 
 // survivesFromEntry re-runs the function's dataflow with f assumed at entry
